@@ -267,6 +267,48 @@ fn main() {
             summarize(&text)
           )
         }
+        // go-to-definition targets of a list of positions, on a fresh server of the workspace with one
+        // module's text replaced: `defs <mod> <hextext> <l:c,l:c,...>` -> per position `module@hex(first
+        // 40 bytes of the target)` or `-`
+        "defs" => {
+          let st = state.as_ref().unwrap();
+          let text = unhex_str(t[2]);
+          let mut heap = Heap::new();
+          let mut sources: HashMap<ModuleReference, String> = HashMap::new();
+          let target = mod_ref(&mut heap, t[1]);
+          for (m, s) in st.string_sources.iter() {
+            let name = m.pretty_print(&st.heap);
+            let m2 = mod_ref(&mut heap, &name);
+            sources.insert(m2, s.clone());
+          }
+          sources.insert(target, text);
+          let fresh = ServerState::new(heap, false, sources);
+          if t[3] == "-" {
+            return "-".to_string();
+          }
+          t[3]
+            .split(',')
+            .map(|p| {
+              let (l, c) = p.split_once(':').unwrap();
+              let pos = Position(l.parse().unwrap(), c.parse().unwrap());
+              let r = catch_unwind(AssertUnwindSafe(|| {
+                samlang_services::query::definition_location(&fresh, &target, pos)
+              }));
+              match r {
+                Ok(Some(loc)) => {
+                  let src = fresh.string_sources.get(&loc.module_reference).cloned().unwrap_or_default();
+                  let line = src.split('\n').nth(loc.start.0 as usize).unwrap_or("");
+                  let from = (loc.start.1 as usize).min(line.len());
+                  let snippet: String = line.as_bytes()[from..].iter().take(40).map(|b| *b as char).collect();
+                  format!("{}@{}", loc.module_reference.pretty_print(&fresh.heap), hex(snippet.as_bytes()))
+                }
+                Ok(None) => "-".to_string(),
+                Err(_) => "panic".to_string(),
+              }
+            })
+            .collect::<Vec<_>>()
+            .join(",")
+        }
         // module diff between two texts (old -> new), edits positioned in the old text
         "mdiff" => {
           let (a, b) = (unhex_str(t[1]), unhex_str(t[2]));
